@@ -5,7 +5,7 @@ from .p_common import TB, PROFILES
 
 def check():
     return solvercheck.run(
-        "C03", None,
+        "C03", "C03.v",
         [dict(profile=PROFILES["config"], n_quick=240, n_thorough=4000, full=True),
          dict(profile=PROFILES["output"], n_quick=120, n_thorough=2000, full=True)],
         [oracles.oracle_C03], TB,
